@@ -818,6 +818,70 @@ def translate_guard(body, sig, fns):
     return fields
 
 
+def method_body(src, name, must_contain):
+    """Body of the non-test `fn name` (free or method) whose body mentions `must_contain`."""
+    cut = src.find("#[cfg(test)]")
+    hay = src if cut < 0 else src[:cut]
+    found = []
+    for m in re.finditer(r"\bfn\s+" + re.escape(name) + r"\s*(?:<[^>{(]*>)?\s*\(", hay):
+        cp = match_close(hay, m.end() - 1)
+        ob = hay.index("{", cp)
+        cb = match_close(hay, ob)
+        if must_contain in hay[ob:cb]:
+            found.append(hay[ob + 1:cb])
+    if len(found) != 1:
+        die(f"expected exactly one `fn {name}` that calls {must_contain}, found {len(found)}")
+    return found[0]
+
+
+def resolve_loop_verified(body, what):
+    """The retry loop of a read path: every metadata document the loop *uses* passes verification first.
+
+    Inside the `loop { … }`: a value obtained from `get_meta(` / `load_meta(` must be bound by a `let` and
+    the first thing done with that variable must be a `verify…(… &var …)?` call; `refresh_meta(` (the
+    re-resolve after NotFound) must be a discarded expression statement followed by `continue`, so that the
+    next iteration re-reads *and re-verifies*. Anything else yields `false` (the generated fact then fails)."""
+    text = blank_strings(body)
+    m = re.search(r"(?:'\w+\s*:\s*)?\bloop\s*\{", text)
+    if not m:
+        die(f"{what}: no retry `loop`")
+    lb = text[m.end():match_close(text, m.end() - 1)]
+    ok = True
+    n_sources = 0
+    for c in re.finditer(r"\b(get_meta|load_meta|refresh_meta)\s*\(", lb):
+        n_sources += 1
+        # the statement that contains the call
+        st = max(lb.rfind(";", 0, c.start()), lb.rfind("{", 0, c.start()), lb.rfind("}", 0, c.start())) + 1
+        head = lb[st:c.start()]
+        cp = match_close(lb, c.end() - 1)
+        tail = lb[cp + 1:]
+        after = re.match(r"\s*\.await\s*\?\s*;", tail)
+        if c.group(1) == "refresh_meta":
+            discarded = re.fullmatch(r"\s*(?:self\s*\.\s*)?(?:inner\s*\.\s*)?", head) is not None and after is not None
+            cont = after is not None and re.match(r"\s*continue\b", tail[after.end():]) is not None
+            ok = ok and discarded and cont
+            continue
+        b = re.fullmatch(r"\s*let\s+(?:mut\s+)?(\w+)\s*(?::[^=]+)?=\s*(?:self\s*\.\s*)?(?:inner\s*\.\s*)?", head)
+        if not (b and after):
+            ok = False
+            continue
+        var = b.group(1)
+        rest = tail[after.end():]
+        use = re.search(r"\b" + re.escape(var) + r"\b", rest)
+        if not use:
+            continue  # never used
+        # the first use must sit inside the argument list of a verify… call whose result is propagated with `?`
+        v = None
+        for vm in re.finditer(r"\b(?:self\s*\.\s*)?(verify\w*)\s*\(", rest[:use.start() + 1]):
+            vcp = match_close(rest, vm.end() - 1)
+            if vm.end() <= use.start() < vcp and re.match(r"\s*\?", rest[vcp + 1:]):
+                v = vm
+        ok = ok and v is not None
+    if n_sources == 0:
+        die(f"{what}: the retry loop reads no metadata document")
+    return ok
+
+
 def const_val(src, name):
     m = re.search(r"\bconst\s+" + name + r"\s*:\s*\w+\s*=\s*([^;]+);", src)
     if not m:
@@ -855,6 +919,30 @@ def main():
     fields = translate_struct(src)
     vb, vsig = fn_body(src, "verify_metadata")
     guard = translate_guard(vb, vsig, fns)
+    # ---- the read paths' retry loops (encryption.rs) and copy_payload (sidecar.rs) --------------------------
+    side_path = os.path.join(repo, "rs", "anda_object_store", "src", "sidecar.rs")
+    try:
+        side = strip_comments(open(side_path).read())
+    except OSError as e:
+        die(f"cannot read {side_path}: {e}")
+    loops = [
+        ("copy_payload", resolve_loop_verified(method_body(side, "copy_payload", "get_meta("), "copy_payload")),
+        ("get_opts", resolve_loop_verified(method_body(src, "get_opts", "get_meta("), "get_opts")),
+        ("get_ranges", resolve_loop_verified(method_body(src, "get_ranges", "get_meta("), "get_ranges")),
+    ]
+    # copy_opts must hand copy_payload a closure that runs verify_metadata(..)? on (location, meta)
+    cob = blank_strings(method_body(src, "copy_opts", "copy_payload("))
+    cm = re.search(r"\bcopy_payload\s*\(", cob)
+    cargs = cob[cm.end():match_close(cob, cm.end() - 1)]
+    clos = re.search(r"\|\s*(\w+)\s*,\s*(\w+)\s*\|", cargs)
+    copy_closure = False
+    if clos:
+        vm = re.search(r"\bverify_metadata\s*\(", cargs[clos.end():])
+        if vm:
+            a0 = clos.end() + vm.end()
+            vargs = squash(cargs[a0:match_close(cargs, a0 - 1)])
+            copy_closure = (re.search(r"\b" + clos.group(1) + r"\b", vargs) is not None and re.search(r"\b" + clos.group(2) + r"\b", vargs) is not None
+                            and re.match(r"\s*\?", cargs[match_close(cargs, a0 - 1) + 1:]) is not None)
     legacy = const_val(src, "CHUNK_AAD_LEGACY")
     bound = const_val(src, "CHUNK_AAD_BOUND")
     default_chunk = const_val(src, "DEFAULT_CHUNK_SIZE")
@@ -965,6 +1053,14 @@ def nonceCtrHi : Nat := {hi}
 def nonceCtrLittleEndian : Bool := {"true" if endian == "le" else "false"}
 def nonceCtrWrappingAdd : Bool := {"true" if add == "wrapping_add" else "false"}
 
+/-- Retry loops of the paths that read a key's metadata document (`SidecarStore::copy_payload`,
+`EncryptedStore::get_opts`, `get_ranges`): is every document the loop uses verified first — the one from the
+cache / initial load *and* the one re-resolved after NotFound (`refresh_meta` discarded + `continue`)? -/
+def resolveLoops : List (String × Bool) := [{", ".join('("%s", %s)' % (n, "true" if v else "false") for n, v in loops)}]
+
+/-- `copy_opts` hands `copy_payload` a verifier that runs `verify_metadata(…, location, meta, …)?`. -/
+def copyVerifyClosure : Bool := {"true" if copy_closure else "false"}
+
 def chunkAadLegacy : Nat := {legacy}
 def chunkAadBound : Nat := {bound}
 def defaultChunkSize : Nat := {default_chunk}
@@ -1001,6 +1097,10 @@ theorem gen_strippedGuard : strippedGuardFields = [.chunkAadVersion, .generation
 
 theorem gen_nonceShape :
     nonceCtrLo = 4 ∧ nonceCtrHi = 12 ∧ nonceCtrLittleEndian = true ∧ nonceCtrWrappingAdd = true := by decide
+
+theorem gen_resolveLoopsVerified :
+    resolveLoops = [("copy_payload", true), ("get_opts", true), ("get_ranges", true)] ∧ copyVerifyClosure = true := by
+  decide
 
 theorem gen_chunkAadVersions : chunkAadLegacy = 0 ∧ chunkAadBound = 1 := by decide
 
